@@ -495,6 +495,8 @@ Proof.
         by (apply Q; auto; simpl; discriminate).
       destruct Q' as [T1 T2 T3]. constructor; simpl in *; auto. }
     destruct G as [T1 T2 T3]. constructor; simpl in *; auto.
+  - (* the ghost gate mark *)
+    destruct H as [T1 T2 T3]. constructor; simpl in *; auto.
   - unfold w_close. destruct (lookup a (actors w)) as [x|] eqn:L; [|exact H].
     destruct (a_alive x) eqn:A; [|exact H]. destruct (a_stop x); [|exact H]. destruct (a_run x); [exact H|].
     assert (G : T (actor_exit a (CStopExit a) w)) by (apply actor_exit_T; [exact H|]; intros y Ly; congruence).
